@@ -25,6 +25,16 @@ CLAIMED = {
          "seeded search over thread interleavings (line granularity inside NameServer and MemoryStorage; storage-call granularity on a real sqlite file) of 2-4 threads x 1-2 operations on shared names; every history (<= 8 operations, invoke/return stamped by global event number) is checked exhaustively for linearizability against a sequential map model incl. the final listing; any exception other than NamingError is an internal error",
          "samples schedules, does not enumerate them; no pre-emption inside a single source line or inside sqlite; operations are called on the NameServer object directly, not through a daemon",
          "DESIGN.md section 4 C15"),
+ "C03": ("exploration",
+         "deterministic simulation: real Proxy and Daemon (both server types) over in-memory sockets with a message-aware fault-injecting middlebox, virtual clock, seeded scheduler; per-call own-reply oracle via unique execution numbers",
+         "seeded search over call sequences (normal, raising, one-way, batch, attribute, stream) x message-level fault scripts (request/reply lost, delayed past the timeout, cut at a byte offset + EOF/RST, reset before/after processing, duplicated, stale replay, sequence rewritten, handshake faults) x MAX_RETRIES 0..2 x 16-bit sequence wrap x serializers x fragmentation; oracle: every returned value was produced by an execution inside the call's own invoke/return interval with its own token, other outcomes are CommunicationErrors, execution counts within 1+N, one-way semantics, recovery on the call after a failed call, no failure before the first fault",
+         "samples fault scripts and schedules; faults act on whole Pyro messages as parsed by the harness's own header parser; a stale reply with the current sequence number is never forged",
+         "DESIGN.md section 4 C03"),
+ "C17": ("exploration",
+         "deterministic simulation of the socket seam: per-call scripted socket behaviours (short reads/writes, retryable and fatal errnos, timeouts, EOF) under a virtual clock; oracle derived from the socket's own log",
+         "seeded search over read sizes (0..131071, around the 60000 chunk boundary), 1-4 successive reads, send buffers, and scripts of <= 12 per-call socket behaviours, with and without MSG_WAITALL, ssl-like sockets, blocking and timeout mode, directly and through SocketConnection; oracle: exact bytes and cursor on return, only Pyro ConnectionClosedError/TimeoutError otherwise, outcome matches the last executed behaviour, partialData on early EOF, termination bound",
+         "samples scripts; one socket call performs exactly one scripted behaviour; retryable errno set is the harness's own list",
+         "DESIGN.md section 4 C17"),
 }
 PENDING = "claimed in DESIGN.md but its check is not built yet; see DESIGN.md section 4"
 ALL = ["C%02d" % i for i in range(1, 21)]
